@@ -4,6 +4,9 @@
      VTup [VInt 2; parts]         DataFrame with these partitions of (x, y) rows: covariance helper fields, cov, corr
      VTup [VInt 3; parts; prog]   CovarianceCounter objects merged in the order given by [prog]
      VTup [VInt 4; rdds; sprog]   a session on REUSED RDD objects (Model.Stats.session): observations, final stack
+     VTup [VInt 5; parts; oprog]  a session on a pool of StatCounter OBJECTS reused by several folds (sc_osession):
+                                  the fields of every live object after every step, full views at the end
+     VTup [VInt 6; parts; oprog]  the same on CovarianceCounter objects (cc_osession)
    parts : VList of VList of numbers (VInt / VFloat) resp. of VTup [x; y];
    prog  : a merge tree in postfix form: i >= 0 pushes the summary of partition i, -1 pops r then l and pushes
            l.mergeStats(r), -2 pops s and pushes s.mergeStats(s). *)
@@ -64,6 +67,19 @@ Definition as_sop (v : val) : option (@sop FloatOps) :=
   | _ => None
   end.
 
+(* object-session programs: VList of VTup [VInt opcode; VInt i; arg]: 0 new, 1 copy i, 2 merge i j, 3 fold i v *)
+Definition as_oop {D} (f : val -> option D) (v : val) : option (oop D) :=
+  match v with
+  | VTup [VInt 0; _; _] => Some ONew
+  | VTup [VInt 1; VInt i; _] => if 0 <=? i then Some (OCopy (Z.to_nat i)) else None
+  | VTup [VInt 2; VInt i; VInt j] => if (0 <=? i) && (0 <=? j) then Some (OMerge (Z.to_nat i) (Z.to_nat j)) else None
+  | VTup [VInt 3; VInt i; x] =>
+      match f x with Some d => if 0 <=? i then Some (OFold (Z.to_nat i) d) else None | None => None end
+  | _ => None
+  end.
+
+Definition last_or_nil {A} (l : list (list A)) : list A := last l [].
+
 Definition run (c : val) : val :=
   match c with
   | VTup [VInt 0; ps] =>
@@ -103,6 +119,28 @@ Definition run (c : val) : val :=
           match session neg_infinity infinity rdds prog [] [] with
           | Some (obs, stack) =>
               VTup [VList (map (fun o => sc_view (fst o)) obs); VList (map (fun o => sc_view (fst o)) (rev stack))]
+          | None => VBad
+          end
+      | _, _ => VBad
+      end
+  | VTup [VInt 5; ps; pg] =>
+      match as_partitions as_num ps, (match pg with VList l => all_of (as_oop as_num) l | _ => None end) with
+      | Some parts, Some prog =>
+          match sc_osession neg_infinity infinity parts prog with
+          | Some tr =>
+              VTup [VList (map (fun pool => VList (map (fun o => sc_fields_view (fst o)) pool)) tr);
+                    VList (map (fun o => sc_view (fst o)) (last_or_nil tr))]
+          | None => VBad
+          end
+      | _, _ => VBad
+      end
+  | VTup [VInt 6; ps; pg] =>
+      match as_partitions as_pair ps, (match pg with VList l => all_of (as_oop as_pair) l | _ => None end) with
+      | Some parts, Some prog =>
+          match cc_osession parts prog with
+          | Some tr =>
+              VTup [VList (map (fun pool => VList (map (fun o => cc_fields_view (fst o)) pool)) tr);
+                    VList (map (fun o => cc_view (fst o)) (last_or_nil tr))]
           | None => VBad
           end
       | _, _ => VBad
